@@ -769,6 +769,28 @@ def _sorted(ex, args, kwargs, fr):
     if all(isinstance(v, (VInt, VFloat, VStr)) and is_conc(v.v) for v in vals) and "key" not in kwargs:
         rev = "reverse" in kwargs and ex.truth(kwargs["reverse"]) is True
         return ex.st.alloc(HList(sorted(vals, key=lambda v: v.v, reverse=rev)))
+    if "key" not in kwargs and "reverse" not in kwargs and len(vals) <= 4:
+        # short list of symbolic numbers / tuples of numbers: stable insertion sort, one path per outcome of each comparison
+        from .ops import to_real
+
+        def lt(a, b):
+            if isinstance(a, VTuple) and isinstance(b, VTuple):
+                for x, y in zip(a.items, b.items):
+                    if lt(x, y):
+                        return True
+                    if lt(y, x):
+                        return False
+                return len(a.items) < len(b.items)
+            if isinstance(a, (VInt, VFloat, VBool)) and isinstance(b, (VInt, VFloat, VBool)):
+                return ex.st.branch(to_real(a) < to_real(b))
+            raise Unsupported("sorted: comparison of these values")
+        out = []
+        for x in vals:
+            pos = len(out)
+            while pos > 0 and lt(x, out[pos - 1]):
+                pos -= 1
+            out.insert(pos, x)
+        return ex.st.alloc(HList(out))
     raise Unsupported("sorted of symbolic values")
 
 
